@@ -37,6 +37,7 @@ package util
 // What a reader assembles for a tag is tlvget of the whole encoding (abstraction of the interface's cval).
 //@ ghost wpre(ref, int) seq
 //@ ghost wacc(ref, int) seq
+//@ scratch wacc
 //@ spec func wmark(int) bool
 //@ axiom wmarkTrue: forallv("n:int", wmark(n), wmark(n))
 // (wmark is a proof marker, always true: the step for item n is unfolded only where wmark(n) is mentioned - without it
@@ -64,7 +65,7 @@ package util
 // is the input (nothing that was not in the input, nothing lost), so every tag reads what a standard parser assembles.
 //@ func NewTLV8ContainerFromReader(r) (c, err)
 //@   fresh c
-//@   modifies stream(r), wacc(r)
+//@   modifies stream(r), wacc(r)      // wacc: working storage of this proof only (scratch)
 //@   abstractas "*github.com/brutella/hc/util.tlv8Container"
 //@   ensures ok: err == nil ==> c != nil && ref(c) > 0
 //@   detail impl: err == nil ==> typeis(c, "*github.com/brutella/hc/util.tlv8Container")
